@@ -340,9 +340,13 @@ func init() {
 							}
 						}
 						msg := ""
-						conn, err := rcv.Accept()
+						var conn io.Reader
+						var err error
+						if werr == nil { // (nothing reaches the receiver otherwise: Accept would wait for ever)
+							conn, err = rcv.Accept()
+						}
 						if werr != nil || err != nil {
-							msg = fmt.Sprintf("Write: %v, Accept at the receiver: %v (receiver closed: %v, %q)", werr, err, rcv.IsClosed(), rcv.TerminalMsg())
+							msg = fmt.Sprintf("Write of one full frame: %v, Accept at the receiver: %v (receiver closed: %v, %q)", werr, err, rcv.IsClosed(), rcv.TerminalMsg())
 						} else {
 							got := make([]byte, len(data))
 							if _, err := io.ReadFull(conn, got); err != nil || !bytes.Equal(got, data) {
